@@ -139,14 +139,20 @@ func genC17(c *Ctx) {
 	}
 	// ---------- double-quoted strings
 	pieces := []string{"a", "Z", " ", "é", "日", "😀", "'", "#", "{", "}", "\\n", "\\t", "\\r", "\\\\", "\\\"", "\\a", "\\b", "\\f", "\\v",
-		"\\d", "\\q", "\\z", "\\'", "\\ ", "\\s", "\\e", "\\N", "\\-", "\\?"}
+		"\\d", "\\q", "\\z", "\\'", "\\ ", "\\s", "\\e", "\\N", "\\-", "\\?",
+		// escapes with a numeric payload (bytes, code points; some malformed): decided by the direct oracle below
+		"\\x41", "\\xe3\\x81\\x82", "\\xff", "\\xc3\\xa9", "\\x80", "\\101", "\\377", "\\200", "\\u00e9", "\\u3042", "\\U0001F600", "\\x4", "\\400", "\\u12", "\\UFFFFFFFF"}
 	for i := 0; i < n; i++ {
 		ln := c.Rng.Intn(8)
 		var sb strings.Builder
 		bad := false
 		for j := 0; j < ln; j++ {
 			p := c.Rng.Pick(pieces)
-			if len(p) == 2 && p[0] == '\\' && !strings.ContainsAny(p[1:], "ntr\\\"abfv") {
+			if len(p) > 2 && p[0] == '\\' {
+				if c.Rng.Intn(3) > 0 {
+					continue
+				}
+			} else if len(p) == 2 && p[0] == '\\' && !strings.ContainsAny(p[1:], "ntr\\\"abfv") {
 				if bad || c.Rng.Intn(3) > 0 {
 					continue // at most one undefined escape, and not in most strings
 				}
@@ -169,7 +175,24 @@ func genC17(c *Ctx) {
 		case "syntax":
 			impl = "err"
 		}
-		c.Em.Emit(Rec{Case: "C17 str " + cps(body), Impl: impl, Src: src, NT: strings.Contains(body, "\\"), Tags: []string{"str", fmt.Sprintf("undefined-escape-%v", bad)}})
+		rec := Rec{Case: "C17 str " + cps(body), Impl: impl, Src: src, NT: strings.Contains(body, "\\"), Tags: []string{"str", fmt.Sprintf("undefined-escape-%v", bad)}}
+		if strings.Contains(body, "\\x") || strings.Contains(body, "\\u") || strings.Contains(body, "\\U") || numericOctal(body) {
+			// numeric escapes are outside the Lean model: the reference is Go's strconv.Unquote (byte-exact)
+			rec.Case = ""
+			rec.Tags = append(rec.Tags, "numeric-escape")
+			want, err := strconv.Unquote(src)
+			switch {
+			case err != nil && o.Kind != "syntax":
+				rec.Oracle = fmt.Sprintf("malformed escape accepted: %s", impl)
+			case err == nil && o.Kind != "val":
+				rec.Oracle = fmt.Sprintf("well-formed literal rejected: %s %s", o.Kind, o.ErrMsg)
+			case err == nil:
+				if sv, ok := o.Obj.(*object.PanStr); !ok || sv.Value != want {
+					rec.Oracle = fmt.Sprintf("string literal denotes %q, not %q", safeInspect(o.Obj), want)
+				}
+			}
+		}
+		c.Em.Emit(rec)
 	}
 	// ---------- names
 	kws := []string{"if", "else", "return", "raise", "yield", "defer"}
@@ -234,4 +257,17 @@ func genC17(c *Ctx) {
 		}
 		c.Em.Emit(Rec{Case: "C17 name " + cps(name), Impl: impl, Src: name, NT: true, Tags: []string{"name"}})
 	}
+}
+
+// numericOctal reports whether the body contains a backslash followed by an octal digit
+func numericOctal(body string) bool {
+	for i := 0; i+1 < len(body); i++ {
+		if body[i] == '\\' {
+			if body[i+1] >= '0' && body[i+1] <= '7' {
+				return true
+			}
+			i++
+		}
+	}
+	return false
 }
